@@ -142,7 +142,9 @@ def fn_case(draw):
     elif fn in ("aryule", "lpc"):
         q = {"order": draw(st.integers(1, min(N // 2, 14))), "norm": draw(st.sampled_from(["biased", "unbiased"]))}
     elif fn in ("arcovar", "arcovar_marple", "modcovar", "modcovar_marple"):
-        q = {"order": draw(st.integers(1, min((N - 1) // 2, 10)))}
+        # order 0 (the first point of an error-versus-order curve) is accepted by the four functions: no coefficient, the
+        # error of predicting each sample by nothing
+        q = {"order": draw(st.one_of(st.integers(1, min((N - 1) // 2, 10)), st.integers(0, 2)))}
     elif fn == "arma_estimate":
         x = est.sanitize("parma", x)
         q = draw(est.params("parma", N, cplx))
@@ -284,6 +286,61 @@ def c03_fn(ctx, case):
         elif kind == "weights":
             ctx.check(not np.iscomplexobj(vb) or float(np.max(np.abs(vb.imag))) == 0, "%s weights are complex" % label, sig=sig)
             ctx.close(np.real(vb), np.real(va), what, rtol=1e-6, atol=1e-8, sig=sig)
+
+
+# ---- Daniell's smoothed periodogram (class and function; not among the estimator rows) -------------------------------------
+@st.composite
+def daniell_case(draw):
+    cplx = draw(st.booleans())
+    big = draw(st.integers(0, 3)) == 3
+    if big:
+        # long records with a strong line at low frequencies (an offset that is not removed) and a noise floor 80-90 dB below it
+        n = draw(st.sampled_from([8200, 9000, 12000, 16384, 16385]))
+        x = {"kind": "tones", "n": n, "complex": cplx, "seed": draw(gen.seeds), "tones": [[0.0477, 3.0, 0.3]], "noise": 1.0,
+             "offset": draw(st.sampled_from([2048.0, 100.0, 0.0, 30000.0]))}
+        P = draw(st.sampled_from([2, 8, 16]))
+    else:
+        x = draw(gen.signal(n=draw(gen.lengths(16, 200)), dtype="complex" if cplx else "real", kinds=("noise", "tones", "ar", "trend"),
+                            noise_levels=(0.01, 0.1, 1.0), units=False))
+        L = x["n"] if cplx else x["n"] // 2 + 1
+        P = draw(st.integers(1, max(1, min(8, (L - 1) // 2))))
+    return {"x": x, "P": P, "c": draw(scalar(cplx)), "via": draw(st.sampled_from(["class", "function"]))}
+
+
+@sub("C03.daniell", strategy=daniell_case(), quick=200, thorough=4000, shards_quick=2,
+     doc="pdaniell / DaniellPeriodogram: psd(c x) == |c|^2 psd(x) bin by bin -- |d_k| <= 1e-13 sqrt(max(psd) psd_k) + 1e-10 psd_k, the "
+         "rounding of an FFT followed by a short average (observed 4e-16 and 1e-12) -- including records of 8200..16385 samples "
+         "whose offset line stands 90 dB above the noise floor")
+def c03_daniell(ctx, case):
+    x = gen.realise(case["x"])
+    x = x.astype(complex) if np.iscomplexobj(x) else x.astype(float)
+    if case["x"].get("offset"):
+        x = x + case["x"]["offset"]
+    cplx = np.iscomplexobj(x)
+    c = cval(case["c"], cplx)
+    P = case["P"]
+    sig = {"fn": "daniell", "via": case["via"]}
+    ctx.sig_on_exception = sig
+    ctx.cls("complex" if cplx else "real", "N>8192" if len(x) > 8192 else "N<=200", "P=%d" % P if P in (1, 2, 8, 16) else "P other", case["via"])
+    ctx.nontrivial(nontriv(case["c"], x))
+
+    def run(v):
+        if case["via"] == "class":
+            return np.real(np.asarray(spectrum.pdaniell(v, P, scale_by_freq=False).psd))
+        return np.real(np.asarray(spectrum.DaniellPeriodogram(v, P, scale_by_freq=False)[0]))
+    a, b = run(x), run(c * x)
+    ctx.check(a.shape == b.shape and a.size > 0, "Daniell estimate of c*x has shape %s, of x %s" % (b.shape, a.shape), sig=sig)
+    if not np.all(np.isfinite(a)) or float(np.max(a)) <= 0:
+        ctx.exclude("estimate not finite / zero")
+        return
+    exp = abs(c) ** 2 * a
+    d = np.abs(b - exp)
+    allowed = 1e-13 * np.sqrt(float(np.max(exp)) * np.abs(exp)) + 1e-10 * np.abs(exp) + 1e-300
+    bad = d > allowed
+    if np.any(bad):
+        i = int(np.argmax(d / allowed))
+        ctx.fail("Daniell estimate (%s, P=%d, N=%d): psd(c x)[%d] = %r but |c|^2 psd(x)[%d] = %r (relative difference %.3g, bin %.3g of "
+                 "the maximum, c=%r)" % (case["via"], P, len(x), i, b[i], i, exp[i], d[i] / abs(exp[i]), abs(exp[i]) / float(np.max(exp)), c), sig=sig)
 
 
 # ---- order / subspace decisions at the extremes of the amplitude range --------
